@@ -34,7 +34,7 @@ TECHNIQUE = "property-based testing (Hypothesis): model-based oracle over genera
 
 
 def cases(tier):
-    return 2400 if tier == "quick" else 240000
+    return 2400 if tier == "quick" else 120000
 
 
 def strategy(hazards):
